@@ -2,6 +2,7 @@ package props
 
 import (
 	"fmt"
+	"math"
 
 	"verif/harness/gen"
 	"verif/harness/mon"
@@ -622,3 +623,8 @@ func c05Shared(c *Ctx) {
 	asInit := r.Bool()
 	CheckOpsShared(c, reqs, exps, true, func(t *ref.T) bool { return asInit && (t == info.w || t == info.b) }, c05Known(info))
 }
+
+// extremeAxes are axis values far outside any rank (integer-arithmetic boundaries).
+var extremeAxes = []int64{math.MinInt64, math.MinInt64 + 1, math.MaxInt64, math.MaxInt64 - 1, -1 << 31, 1 << 31, 1 << 32, -(1 << 32), 1 << 40, -(1 << 40)}
+
+func extremeAxis(r *gen.R) int64 { return extremeAxes[r.Intn(len(extremeAxes))] }
